@@ -431,13 +431,18 @@ func (e *Enc) indexSV(a, i SV, env *SpecEnv, s *Spec) SV {
 				return SV{T: fmt.Sprintf("(select (select %s (sref %s)) %s)", e.hget(env.heap, key), a.T, i.absBase),
 					S: e.d.sortOf(u.Elem()), GoT: u.Elem()}
 			}
+			if _, isP := u.Elem().Underlying().(*types.Pointer); isP {
+				e.allocFact(u.Elem(), fmt.Sprintf("(select (select %s (sref %s)) (+ (soff %s) %s))", e.hget(env.heap, key), a.T, a.T, i.T), env.heap)
+			}
 			return SV{T: fmt.Sprintf("(select (select %s (sref %s)) (+ (soff %s) %s))", e.hget(env.heap, key), a.T, a.T, i.T),
 				S: e.d.sortOf(u.Elem()), GoT: u.Elem()}
 		case *types.Array:
 			return SV{T: fmt.Sprintf("(select %s %s)", a.T, i.T), S: e.d.sortOf(u.Elem()), GoT: u.Elem()}
 		case *types.Map:
 			keys := e.mapKeys(u.Key(), u.Elem())
-			return SV{T: fmt.Sprintf("(select (select %s %s) %s)", e.hget(env.heap, keys[1]), a.T, i.T), S: e.d.sortOf(u.Elem()), GoT: u.Elem()}
+			mterm := fmt.Sprintf("(select (select %s %s) %s)", e.hget(env.heap, keys[1]), a.T, i.T)
+			e.allocFact(u.Elem(), mterm, env.heap)
+			return SV{T: mterm, S: e.d.sortOf(u.Elem()), GoT: u.Elem()}
 		case *types.Basic:
 			return intSV(fmt.Sprintf("(strat %s %s)", a.T, i.T))
 		}
@@ -796,6 +801,20 @@ func (e *Enc) evalCall(s *Spec, env *SpecEnv) SV {
 		}
 		a := arg(0)
 		return boolSV(fmt.Sprintf("(and (distinct %s 0) (= (dyntype %s) %s))", a.T, a.T, e.typeID(t)))
+	case "ifaceval": // ifaceval(x, T): payload of an interface value whose dynamic type is the (non-pointer) type T
+		if !need(2) || s.Args[1].Kind != SName {
+			e.fatalf("spec %s: ifaceval(x, T)", s)
+			return intSV("0")
+		}
+		t := env.lookupType(s.Args[1].Name)
+		if t == nil {
+			e.fatalf("spec %s: unknown type", s)
+			return intSV("0")
+		}
+		a := arg(0)
+		srt := e.d.sortOf(t)
+		e.d.add(fmt.Sprintf("(declare-fun ifaceval_%s (Int) %s)", mangle(srt), srt))
+		return SV{T: fmt.Sprintf("(ifaceval_%s %s)", mangle(srt), a.T), S: srt, GoT: t}
 	case "ifaceptr": // payload of an interface value holding a pointer
 		a := arg(0)
 		e.d.add("(declare-fun ifaceval_Int (Int) Int)")
